@@ -233,11 +233,14 @@ func (c *Compiled) RunContext(ctx context.Context) (err error) {
 				}
 			}
 		}()
+		verifYield("runctx.goroutine_start")
 		ch <- v.Run()
 	}()
 
+	verifYield("runctx.before_select")
 	select {
 	case <-ctx.Done():
+		verifYield("runctx.before_abort")
 		v.Abort()
 		<-ch
 		err = ctx.Err()
@@ -271,6 +274,7 @@ func (c *Compiled) Clone() *Compiled {
 	// copy global objects
 	for idx, g := range c.globals {
 		if g != nil {
+			verifYield("clone.copy_global")
 			clone.globals[idx] = g.Copy()
 		}
 	}
